@@ -194,8 +194,9 @@ META["C11"] = dict(
          "history incl. GC): C11_index_file_released (a non-current index file no bucket points into is zero-length or unlinked after ONE "
          "complete cycle with the free-file scan; unlinked in that cycle when every file before it is free too), C11_index_released_stays, "
          "C11_index_reap_free_file (what a cycle without the scan does to such a file), C11_primary_file_released (one complete primary GC "
-         "cycle, any threshold, releases a non-current file no entry points into; assumes two decidable state hypotheses not yet derived "
-         "from reachability: Covered - every record span of a closed file is current or recorded - and VisitedStable), C11_no_growth_index "
+         "cycle, any threshold, releases a non-current file no entry points into; C11_primary_file_released_unconditional derives the "
+         "coverage hypothesis from reachability via C13_gc_covered, leaving only file length < 2^31 and VisitedStable, which fail only "
+         "when the file limit plus the largest record reaches 2^31), C11_no_growth_index "
          "/ _primary (no cycle makes any file longer; relocation pools byte-for-byte copies, at most two per visit), "
          "C11_fixed_point_primary (after a complete cycle that left the pools empty every further cycle is the identity), "
          "C11_low_use_visit (the one-visit step of draining; the cycle bound is shown on a decide example, not by induction). Findings "
@@ -217,9 +218,13 @@ META["C13"] = dict(
          "configuration and C01 history. Along histories WITH garbage collection (Sth/Props/C13G.lean): C13_gc_nothing_current_recorded "
          "(no recorded block - freelist file, .gc file, pool - has the offset of a current record, any history under GcCountersOK), "
          "C13_gc_consumes (a complete primary GC cycle leaves the freelist file empty and no .gc file: everything recorded before it "
-         "was presented to it; what remains recorded is what the cycle itself recorded by relocation), C13_gc_pool_after. Not proved: "
-         "'nothing is recorded twice' along GC histories (needs a history variable); the concurrent hand-over (Put || Flush || ToGC) "
-         "is covered by the sched runs, not by theorems.",
+         "was presented to it; what remains recorded is what the cycle itself recorded by relocation), C13_gc_pool_after; and the "
+         "statement at full strength for sequential histories (Sth/Props/C13H.lean, ~3850 lines): C13_gc_covered (COMPLETENESS: in every "
+         "state of every history - GC cycles of both kinds, complete or cut, reopens anywhere - every record span that is not marked "
+         "deleted, of every primary file and of the pools, is current or recorded) and C13_gc_exactly_once (with the ghost list of "
+         "consumed blocks: recorded has no duplicates, consumed has no duplicates, the two are disjoint, and neither names a current "
+         "record - every superseded location is recorded exactly once, presented to the collector exactly once, and never recorded, "
+         "consumed or current again). The concurrent hand-over (Put || Flush || ToGC) is covered by the sched runs, not by theorems.",
     note=SEQ_NOTE,
 )
 
